@@ -7,6 +7,26 @@ BASELINE = "cd /repo && /venv/bin/python -m pytest -ra -q -p no:cacheprovider --
 
 # id -> (technique, level text, level note, design ref)
 CHECKS = {
+    "C02": (
+        "property-based testing (Hypothesis typed query + database generator) with a differential oracle: source engine vs target engine (sqlite3, duckdb) on transpiled text, four dialect pairs",
+        "Generated-input search over typed common-fragment queries and NULL-bearing databases; each query runs on its source engine and its transpiled text on the target engine, rows compared as multisets or as sequences under a total ORDER BY. "
+        "Includes DuckDB-side QUALIFY, DISTINCT ON, SEMI/ANTI joins and strftime over a TIMESTAMP table. Sampled; the fragment is defined positively in DESIGN.md.",
+        "Trusts sqlite3 3.40 and duckdb 1.x as reference semantics of the fragment. One known finding (DISTINCT ON -> SQLite loses the final ORDER BY) exempts only the row sequence of those cases.",
+        "DESIGN.md §C02",
+    ),
+    "C03": (
+        "property-based testing (Hypothesis typed query + database generator, plus targeted guard-shape stream) with a differential oracle on DuckDB: original text vs optimize() output per full pipeline, per single rule and per pipeline prefix",
+        "Generated-input search: each query/database pair is executed on DuckDB before and after optimize() with the full rule list, with (qualify, r) for every rule r, and (sampled in quick, always in thorough) with every prefix RULES[:k]; rows and output column names must agree. "
+        "A targeted stream puts LIMIT/DISTINCT/GROUP BY/window/constant projections in a derived table or CTE under an outer predicate, join side or aggregate, which is where the optimizer's guards sit.",
+        "DuckDB is the reference; OptimizeError is an allowed outcome. Two listed known findings pinned by upstream fixtures (RIGHT JOIN ON TRUE -> CROSS JOIN; CROSS JOIN (… LIMIT 1) elimination) are excluded by construction and counted.",
+        "DESIGN.md §C03",
+    ),
+    "C11": (
+        "property-based testing (Hypothesis typed query + table generator) with a differential oracle: sqlglot.executor.execute vs DuckDB, and vs SQLite when it accepts the text",
+        "Generated-input search over the executor's fragment; execute() must return the engines' column names and rows (multiset / sequence under total ORDER BY with explicit NULLS FIRST|LAST) or raise ExecuteError. Cases on which the two engines disagree with each other are discarded and counted.",
+        "DuckDB/SQLite are the reference; three known findings are excluded by construction and counted (DISTINCT + ORDER BY; the two optimizer findings execute() inherits).",
+        "DESIGN.md §C11",
+    ),
     "C06": (
         "property-based testing (Hypothesis, typed expression grammar) with a truth-table differential oracle on SQLite, per-rule runtime observer",
         "Generated-input search: thousands of well-typed boolean/arithmetic expressions per run, each compared with its simplify()/normalize() result "
